@@ -14,7 +14,8 @@ for s in $seeds; do
   g1=$(VERIF_REPO=$W/r python3 tools/gen_layout.py | grep -c ERROR)
   g2=$(VERIF_REPO=$W/r python3 tools/gen_iters.py | grep -c ERROR)
   g3=$(VERIF_REPO=$W/r python3 tools/gen_store.py | grep -c ERROR)
-  b=$(cd lean && lake build MultiProofs.GenTie MultiProofs.GenTieIter MultiProofs.GenTieStore 2>&1 | grep -c "^error")
-  if [ "$g1$g2$g3" != "000" ]; then echo "$s: BROKEN (translator error: layout=$g1 iters=$g2 store=$g3)"; elif [ "$b" != "0" ]; then echo "$s: BROKEN (tie proof fails)"; else echo "$s: tie holds"; fi
+  g4=$(VERIF_REPO=$W/r python3 tools/gen_casts.py | grep -c ERROR)
+  b=$(cd lean && lake build MultiProofs.GenTie MultiProofs.GenTieIter MultiProofs.GenTieStore MultiProofs.GenTieCast 2>&1 | grep -c "^error")
+  if [ "$g1$g2$g3$g4" != "0000" ]; then echo "$s: BROKEN (translator error: layout=$g1 iters=$g2 store=$g3 casts=$g4)"; elif [ "$b" != "0" ]; then echo "$s: BROKEN (tie proof fails)"; else echo "$s: tie holds"; fi
 done
 rm -rf $W
